@@ -1040,3 +1040,23 @@ Proof.
   split; [reflexivity|]. unfold accept. destruct (lookup (idp cp) (cache (get w a))) as [[? ?]|]; reflexivity.
 Qed.
 End DeliverP.
+
+(* ---- an arrival dispatched while another waits for the class (HANDLE_INSPECT) ---- *)
+Lemma nested_arrival_rechecked k r : lookup k (cache r) = None ->
+  let n := nlen (made r) in
+  nested_arrival true k r =
+    ((POther (proxy_name n), POther (proxy_name n)),
+     {| ltab := ltab r; made := made r ++ [k]; cache := update k (n, 2) (update k (n, 1) (cache r)); mlog := mlog r |}).
+Proof.
+  intros H n. unfold nested_arrival. rewrite (accept_fresh _ _ H). fold n.
+  unfold accept. cbn [cache]. rewrite lookup_update_same. reflexivity.
+Qed.
+Lemma nested_arrival_stale k r : lookup k (cache r) = None ->
+  let n := nlen (made r) in
+  nested_arrival false k r =
+    ((POther (proxy_name (n + 1)), POther (proxy_name n)),
+     {| ltab := ltab r; made := (made r ++ [k]) ++ [k]; cache := update k ((n + 1)%N, 1) (update k (n, 1) (cache r)); mlog := mlog r |}).
+Proof.
+  intros H n. unfold nested_arrival. rewrite (accept_fresh _ _ H). fold n. unfold store_fresh. cbn [made cache ltab mlog].
+  replace (nlen (made r ++ [k])) with (n + 1)%N; [reflexivity|]. unfold n, nlen. rewrite app_length. simpl. lia.
+Qed.
